@@ -202,6 +202,17 @@ Proof.
   - rewrite getv_setv_neq; auto.
 Qed.
 
+(* an operand as the iterators need it: a dense list may be SHORTER than the
+   receiver (it reads 0 beyond its end) — used for the two-way joint iterator,
+   which is the three-way one with an empty third operand *)
+Definition operand_wk (w : world) (t : nat) (o : operand) : Prop :=
+  match o with
+  | OS u => u <> t /\ has w u /\ dim (getv w u) = dim (getv w t)
+  | OD d => zlen d <= dim (getv w t)
+  end.
+Lemma operand_ok3_wk w t o : operand_ok3 w t o -> operand_wk w t o.
+Proof. destruct o; simpl; auto. lia. Qed.
+
 (* ---- operand iterators behind one interface ---------------------------------- *)
 Definition cand (c : citer) : option Z := if ci_ok c then Some (ci_index c) else None.
 
@@ -213,7 +224,7 @@ Definition CPos (w : world) (c : citer) (V : Z -> Z) (p : Z) : Prop :=
   match c with
   | CS u cur => u <> t /\ has w u /\ dim (getv w u) = n /\
                 (forall i, peek (hp w) (getv w u) i = V i) /\ Pos (hp w) (getv w u) cur p
-  | CD d pos => zlen d = n /\ (forall i, 0 <= i -> nth (Z.to_nat i) d 0 = V i) /\ 0 <= pos /\
+  | CD d pos => zlen d <= n /\ (forall i, 0 <= i -> nth (Z.to_nat i) d 0 = V i) /\ 0 <= pos /\
                 (pos < zlen d -> p <= pos /\ forall i, p <= i < pos -> V i = 0) /\
                 (zlen d <= pos -> forall i, p <= i -> V i = 0)
   end.
@@ -286,7 +297,7 @@ Proof.
     intros H i Hi. rewrite <- HV by lia. apply nth_overflow. lia.
 Qed.
 Lemma CPos_begin w o :
-  G t w -> operand_ok3 w t o -> dim (getv w t) = n ->
+  G t w -> operand_wk w t o -> dim (getv w t) = n ->
   exists w' c, ci_begin w o = Some (w', c) /\ Qw w w' /\ AInv w' /\ CPos w' c (ord w o) 0.
 Proof.
   intros HG HO Hn. destruct o as [u|d]; simpl in *.
